@@ -863,7 +863,7 @@ class Interp(object):
             ctx.oblige('%s: carried-state invariant on entry' % label, spec.invariant(st0), self.where(node), 'inv-entry')
         if getattr(base, 'table', None) is not None and getattr(self, 'check_pulls', True):
             ctx.oblige('%s: before the first data row is requested at most the header row has been pulled' % label,
-                       k0 <= 1, self.where(node), 'pull')
+                       k0 <= 1 + spec.lookahead, self.where(node), 'pull')
         for t in (getattr(ctx, 'tables', []) if getattr(self, 'check_pulls', True) and getattr(ctx, 'in_iteration', None) is None else []):
             for other in getattr(t, 'iterators', []):
                 if other is not base and not getattr(other, 'pull_checked', False) and not getattr(other, 'looped', False):
